@@ -23,7 +23,7 @@ RULE = ("configuration grid (sampler x schedule x checkpoint cadence x n_final_s
         "user-callable call index k of the reference run (fault = exception, and KeyboardInterrupt, raised inside the k-th likelihood/prior call) x generator created by the sampler / handed to its constructor x "
         "resume route {bytes, dict (unpickled), the live dict object the callback received - for every crash point -, HDF5 file path, raw pickle file path, the interrupted sampler object itself}; plus the resume-from-file constructor route with a real zuko flow; plus BlackJAXSMC (stand-in rwmh kernel) resumed from every checkpoint of an uninterrupted run; thorough "
         "adds a second fault inside every resumed run. One evaluation = one faulted or resumed run of the real sampler; "
-        "non-trivial = crash point with at least one checkpoint before it and at least one iteration left to run; "
+        "two configurations run a kernel that also draws bounded integers from the sampler's generator (buffered half-word in the generator state). non-trivial = crash point with at least one checkpoint before it and at least one iteration left to run; "
         "distinct = distinct (config, crash point, route)")
 ASSUMPTIONS = [
     "interruption = Python exception at a user-callable boundary (the property's definition); torn HDF5 writes are not modelled",
@@ -250,6 +250,11 @@ def configs(tier, seed):
             for cadence in (1, 2) if tier == "thorough" else (1,):
                 out.append({"sampler": sampler, "N": 8, "opts": dict(SCHEDULES[sname]), "cadence": cadence, "n_final": 9, "n_final_steps": 4,
                             "precond": "none", "seed": 0, "sched": sname, "_tier": tier})
+    # a kernel that also draws bounded integers from the sampler's generator (NumPy buffers half of a 64-bit word between
+    # such draws: the generator's state is more than its stream position)
+    for cadence in (1, 2):
+        out.append({"sampler": "smc", "N": 8, "opts": dict(SCHEDULES["adaptive"]), "cadence": cadence, "n_final": 9 if cadence == 2 else None,
+                    "precond": "none", "seed": 0, "sched": "adaptive", "kernel_int_draws": True, "_tier": tier})
     # the user's own generator handed to the sampler constructor (a resumed run is given an identically seeded one);
     # EmceeSMC's constructor takes no generator
     for sampler in ("smc",):
